@@ -162,9 +162,10 @@ def cli_inproc(argv, logfile=None):
 
 _subs = [0]
 optimized_runs = [0]
+ascii_locale_runs = [0]
 
 
-def cli_sub(argv, cwd, guard=False, timeout=300, env_extra=None, hashseed="0"):
+def cli_sub(argv, cwd, guard=False, timeout=300, env_extra=None, hashseed="0", ascii_locale=True):
     """R3: real CLI in a fresh interpreter, guard OFF by default. returns (rc, stderr tail).
     Every second invocation runs the interpreter with -O (assert statements compiled out): the tool's results must not
     rest on the side effects or the protection of an assert"""
@@ -175,6 +176,15 @@ def cli_sub(argv, cwd, guard=False, timeout=300, env_extra=None, hashseed="0"):
     if random.Random(f"optimize/{_subs[0]}").random() < 0.5:
         flags.append("-O")
         optimized_runs[0] += 1
+    if ascii_locale and random.Random(f"locale/{_subs[0]}").random() < 0.4 and all(str(a).isascii() for a in argv) \
+            and str(cwd).isascii():
+        # an ASCII-only locale without UTF-8 mode (a minimal container, cron, ssh without locale forwarding): file CONTENTS
+        # are still UTF-8 and must be read and written as such; only used when the command line itself is ASCII and the
+        # caller does not opt out (file NAMES inside a description, and the Kconfig reader's text-mode open, depend on
+        # the locale - an environment limit / observation, not part of any property)
+        env.update({"LC_ALL": "C", "LANG": "C", "PYTHONUTF8": "0", "PYTHONCOERCECLOCALE": "0"})
+        env.pop("PYTHONIOENCODING", None)
+        ascii_locale_runs[0] += 1
     p = subprocess.run([core.PY] + flags + ["-m", "suit_generator.cli"] + [str(a) for a in argv], cwd=cwd, env=env,
                        capture_output=True, timeout=timeout)
     return p.returncode, p.stderr.decode("utf-8", "replace")[-1500:]
